@@ -154,6 +154,7 @@ CF_Q = {"quick": 2500, "thorough": 40000}
 
 PROPS = {
     "C01": {
+        "facts": ['clause_kinds_covered'],
         "nt_rule": "ok4",
         "level": "proof", "module": "Resolvo.Props.C01", "imports": ["Resolvo.MDet.CheckedProofs"],
         "theorems": ["Resolvo.MDet.solveChecked_ok_valid", "Resolvo.C01.valid_decided", "Resolvo.C01.valid_unfold", "Resolvo.C01.valid_mono_exempt",
@@ -166,6 +167,7 @@ PROPS = {
         "assumptions": ["provider contract WF (candidates carry their package's name, are listed once, have table entries); malformed providers are outside C01"],
     },
     "C02": {
+        "facts": ['clause_kinds_covered'],
         "nt_rule": "unsat_or_learnt",
         "level": "proof", "module": "Resolvo.Props.C02", "imports": ["Resolvo.MDet.CheckedProofs"],
         "theorems": ["Resolvo.MDet.solveChecked_unsat_sound", "Resolvo.MDet.solveChecked_ok_solvable", "Resolvo.C02.unsat_certified", "Resolvo.C02.decideSolvable_correct", "Resolvo.C02.ok_solvable",
@@ -177,6 +179,7 @@ PROPS = {
                         "the verif-hooks history is emitted faithfully (an omitted event makes the checker reject, not accept)"],
     },
     "C03": {
+        "facts": ['clause_kinds_covered'],
         "nt_rule": "unsat_graph",
         "level": "other", "module": "Resolvo.Props.C03",
         "theorems": ["Resolvo.C03.refutes_exact", "Resolvo.C03.learnt_from_antecedents", "Resolvo.C03.clauses_truthful", "Resolvo.Graph.graphRefutes_iff"],
@@ -197,6 +200,14 @@ PROPS = {
         "theorems": ["Resolvo.MDet.solveChecked_ok_supported", "Resolvo.C05.supportedB_sound", "Resolvo.C05.closure_sound"],
         "families": [("solve", SOLVE_Q), ("soft", SOFT_Q), ("conflictfree", CF_Q)],
         "explanation": "PROVED (all inputs): every solvable in a solution returned by the checked model is Supported (solveChecked_ok_supported). TIE: exact correspondence of MDet.solve with the real solver (result, solution order, history) + supportedB on every implementation answer. NOT PROVED: that checkFailed never occurs (checked per run); completeness of the closure oracle.",
+    },
+    "C06": {
+        "level": "other", "module": "Resolvo.ModelFacts", "theorems": [], "facts": ["hash_iteration_sites_covered"],
+        "repro": [("solve", {"quick": 1500, "thorough": 30000}), ("soft", {"quick": 800, "thorough": 15000}), ("snapshot", {"quick": 800, "thorough": 15000})],
+        "families": [("solve", SOLVE_Q)],
+        "explanation": "PROVED/CHECKED AT BUILD: the list of source locations that iterate a hash container, re-extracted from /repo on every run, equals the list the model accounts for (ModelFacts.hash_iteration_sites_covered, a decide-checked equality) - a new `for .. in hash_map` is an unmatched obligation; the deterministic model MDet (which has no hash containers at all) reproduces the real solver's result, solution order and complete history exactly. "
+                       "EXPLORED AT RUN TIME (what a theorem cannot see: hasher seeds, allocation addresses): every case runs in 3 separate processes and twice per process with fresh solver instances; results, solution order, conflict message text, conflict graph and snapshot contents must be byte-identical.",
+        "assumptions": ["ahash RandomState is seeded per process; three processes sample three seeds"],
     },
     "C07": {
         "nt_rule": "preferred",
@@ -237,6 +248,7 @@ PROPS = {
         "explanation": "PROVED: in every history of solves on one solver of the checked model (any problems, any outcomes incl. Cancelled and Unsolvable, any cache contents) every returned solution is valid and supported and every Unsolvable verdict is sound. TIE: exact correspondence of whole sync histories (results, solution orders, call logs with polls, solver histories) between MDet and the real solver. CHECKED PER RUN: no refetch of obtained metadata across solves, termination/no deadlock after cancellation with requests in flight (async). NOT PROVED: checkFailed never occurs; termination.",
     },
     "C12": {
+        "facts": ['poll_sites_covered'],
         "nt_rule": "cancelled",
         "level": "other", "module": "Resolvo.Props.C12",
         "theorems": ["Resolvo.C12.poll_fires", "Resolvo.C12.poll_transparent", "Resolvo.C12.no_deps_request_after_signal", "Resolvo.C12.no_cands_request_after_signal"],
@@ -254,6 +266,7 @@ PROPS = {
         "explanation": "PROVED: a history accepted by the abstract system never reports Unsolvable for a solvable hard problem; the exemption affects only the lock/exclusion conjunct. CHECKED PER RUN on the soft family: validB with exemption, verdict vs verified decideSolvable, history acceptance, no panic (debug and release).",
     },
     "C19": {
+        "facts": ['chunk_sizes_positive'],
         "level": "proof",
         "module": "Resolvo.Props.C19",
         "theorems": ["Resolvo.C19.step_refines", "Resolvo.C19.run_represents", "Resolvo.C19.get_refines",
@@ -287,6 +300,7 @@ PROPS = {
         "assumptions": ["A16: sort_candidates is induced by one per-package key", "favored/locked are not represented by the format; union member order is not represented (hash set)"],
     },
     "C18": {
+        "facts": ['chunk_sizes_positive'],
         "level": "proof", "module": "Resolvo.Props.C18",
         "theorems": ["Resolvo.C18.alloc_dense", "Resolvo.C18.addr_stable", "Resolvo.C18.resolve_stable", "Resolvo.C18.resolve_new",
                      "Resolvo.C18.capacity_never_exceeded", "Resolvo.C18.reachable_inv", "Resolvo.C18.tinv_intern", "Resolvo.C18.intern_twice",
